@@ -188,6 +188,9 @@ pub mod params;
 mod structs;
 #[cfg(test)]
 mod tests;
+#[cfg(bpaf_verif)]
+#[doc(hidden)]
+pub mod verif;
 
 pub mod parsers {
     //! This module exposes parsers that accept further configuration with builder pattern
